@@ -48,6 +48,8 @@ pub enum Op {
     Pull { c: usize, s: usize },
     Refresh { c: usize, s: usize },
     Crash { n: usize },
+    /// open a write transaction, create an entry, drop without commit
+    Abandon { n: usize, u: Uuid, name: String },
     /// adversarial requests that must be refused and leave nothing behind
     BadCreate { n: usize, kind: u8, u: Uuid, name: String },
     BadModify { n: usize, kind: u8, u: Uuid },
@@ -81,6 +83,7 @@ impl Op {
             Op::Pull { .. } => "Pull",
             Op::Refresh { .. } => "Refresh",
             Op::Crash { .. } => "Crash",
+            Op::Abandon { .. } => "Abandon",
             Op::BadCreate { .. } => "BadCreate",
             Op::BadModify { .. } => "BadModify",
         }
@@ -96,6 +99,10 @@ pub struct Cfg {
     pub auto_refresh: bool,
     pub quiesce: bool,
     pub faults: bool,
+    /// advance the simulated clock by one second before every event (no cross-node timestamp
+    /// ties, clocks consistent with causality) — expressed through `focus`: "converge" ticks.
+    #[serde(default)]
+    pub tick: bool,
 }
 
 #[derive(Default)]
@@ -127,7 +134,9 @@ pub struct Cluster {
     _scratch: Option<Scratch>,
     /// per server uuid, the newest committed change time
     last_cid: BTreeMap<Uuid, Duration>,
-    tombstoned: BTreeSet<Uuid>,
+    /// uuid → nodes that have held it as a tombstone since their last refresh (a refresh discards
+    /// the refreshed node's own history by design, deletions included)
+    tombstoned: BTreeMap<Uuid, BTreeSet<usize>>,
     recycled_ever: BTreeSet<Uuid>,
     revived_ever: BTreeSet<Uuid>,
     baseline_system: BTreeSet<Uuid>,
@@ -206,7 +215,7 @@ impl Cluster {
             nodes: vec![],
             _scratch: scratch,
             last_cid: BTreeMap::new(),
-            tombstoned: BTreeSet::new(),
+            tombstoned: BTreeMap::new(),
             recycled_ever: BTreeSet::new(),
             revived_ever: BTreeSet::new(),
             baseline_system: BTreeSet::new(),
@@ -308,6 +317,12 @@ impl Cluster {
         let mut fs: Vec<oracles::Finding> = vec![];
         if self.enabled.contains("C03") {
             for e in vh::verify_read(&mut r).into_iter().flatten_err() {
+                // C03 is about indexes and lookup tables: only the index-related results of the
+                // server's own check belong to it.
+                if !matches!(e, ConsistencyError::BackendIndexSync | ConsistencyError::BackendAllIdsSync | ConsistencyError::UuidIndexCorrupt(_) | ConsistencyError::EntryUuidCorrupt(_)) {
+                    self.out.probe("verify(): non-index consistency report");
+                    continue;
+                }
                 fs.push(oracles::Finding { property: "C03", oracle: "server-verify", signature: format!("{e:?}").chars().take(40).collect(), summary: format!("node {n}: verify() reports {e:?}") });
             }
             fs.extend(crate::mirror::check(&mut r, &snap, n));
@@ -368,7 +383,7 @@ impl Cluster {
         }
         for u in now_ts {
             self.nodes[n].seen_ts.insert(u);
-            self.tombstoned.insert(u);
+            self.tombstoned.entry(u).or_default().insert(n);
         }
         drop(r);
         // state digest
@@ -414,6 +429,10 @@ impl Cluster {
             Ok(()) => {
                 self.nodes[c].seen_ts.clear();
                 self.nodes[c].links.clear();
+                for holders in self.tombstoned.values_mut() {
+                    holders.remove(&c);
+                }
+                self.tombstoned.retain(|_, h| !h.is_empty());
                 self.out.probe("refresh applied");
                 PullResult::Refreshed
             }
@@ -547,6 +566,10 @@ impl Cluster {
     pub fn apply(&mut self, id: u64, op: &Op) -> String {
         self.set_entropy(id);
         self.out.events_run += 1;
+        if self.cfg.tick {
+            self.t += 1;
+            self.out.sim_secs += 1.0;
+        }
         self.after = match op {
             Op::ReplApply { .. } | Op::Pull { .. } => "repl-apply",
             Op::Refresh { .. } => "refresh",
@@ -649,6 +672,18 @@ impl Cluster {
                 self.out.fault("crash_restart");
                 let ok = self.restart(n);
                 Ok((if ok { Some(n) } else { None }, format!("{ok}")))
+            }
+            Op::Abandon { n, u, name } if n < nn && self.up(n) => {
+                let ct = self.ct(n);
+                let qs = self.nodes[n].qs.clone().expect("up");
+                let r = (|| -> Result<(), OperationError> {
+                    let mut txn = block(qs.write(ct))?;
+                    txn.internal_create(vec![person(u, &name)])?;
+                    drop(txn);
+                    Ok(())
+                })();
+                self.out.fault("txn_abandon");
+                Ok((Some(n), format!("abandon:{}", r.is_ok())))
             }
             Op::BadCreate { n, kind, u, name } if n < nn && self.up(n) => {
                 let r = self.bad_create(n, kind, u, &name);
@@ -823,6 +858,15 @@ impl Cluster {
                             self.check_node(c);
                         }
                         PullResult::NoChanges => {}
+                        PullResult::Unwilling => {
+                            // The supplier reports that *it* is behind this consumer. The
+                            // documented remedy is an administrator refreshing the lagging
+                            // server, which is what the simulated administrator does here.
+                            // "Unwilling" covers three different verdicts (supplier behind, both
+                            // behind, no common server); which side an administrator must refresh
+                            // is a human decision, so the simulator does not take it.
+                            stuck.push(format!("{c}<-{s}:Unwilling"));
+                        }
                         other => stuck.push(format!("{c}<-{s}:{other:?}")),
                     }
                 }
@@ -839,7 +883,9 @@ impl Cluster {
         let mut dumps = vec![];
         for n in 0..nn {
             let qs = self.nodes[n].qs.clone();
-            let d = qs.and_then(|qs| block(qs.read()).ok().and_then(|mut r| Dump::take(&mut r).ok()));
+            // `last_modified_cid` / `created_at_cid` record when *this replica* stored the entry
+            // (kanidm applies them locally on every replica); they are not replicated values.
+            let d = qs.and_then(|qs| block(qs.read()).ok().and_then(|mut r| Dump::take(&mut r).ok())).map(|d| d.without_attrs(&["last_modified_cid", "created_at_cid"]));
             dumps.push(d);
         }
         if self.enabled.contains("C08") {
@@ -852,7 +898,8 @@ impl Cluster {
             for a in 0..nn {
                 for b in (a + 1)..nn {
                     if let (Some(da), Some(db)) = (&dumps[a], &dumps[b]) {
-                        if let Some(d) = da.diff(db) {
+                        let (da, db) = (da.clone().live_and_conflict(), db.clone().live_and_conflict());
+                        for d in da.diff_all(&db) {
                             let sig = diff_signature(&d);
                             self.viol(oracles::Finding { property: "C08", oracle: "replicas-differ", signature: sig, summary: format!("node {a} vs node {b} at quiescence: {d}") });
                         }
@@ -860,10 +907,16 @@ impl Cluster {
                 }
             }
         }
-        if self.enabled.contains("C09") {
+        if self.enabled.contains("C09") && !stuck.is_empty() {
+            // Some replica is refused and waits for an administrator: it legitimately still holds
+            // what it held. The per-step form of the oracle (a node that applied a tombstone never
+            // holds the entry live again) has been watching throughout.
+            self.out.probe("C09 quiescence form skipped: a replica awaits an administrator");
+        }
+        if self.enabled.contains("C09") && stuck.is_empty() && settled {
             for (n, d) in dumps.iter().enumerate() {
                 let Some(d) = d else { continue };
-                let ts_all: Vec<Uuid> = self.tombstoned.iter().cloned().collect();
+                let ts_all: Vec<Uuid> = self.tombstoned.keys().cloned().collect();
                 for u in &ts_all {
                     if let Some((st, _)) = d.entries.get(u) {
                         if matches!(st, EState::Live | EState::Recycled) {
@@ -911,7 +964,24 @@ fn diff_signature(d: &str) -> String {
     } else if let Some(i) = d.find("differs: ") {
         let rest = &d[i + 9..];
         let path: String = rest.split(' ').next().unwrap_or("").to_string();
-        format!("attribute path {path}")
+        let state = if d.contains("(Conflict)") {
+            "Conflict"
+        } else if d.contains("(Recycled)") {
+            "Recycled"
+        } else if d.contains("(Tombstone)") {
+            "Tombstone"
+        } else {
+            "Live"
+        };
+        let kind = if rest.contains("missing on") { "missing on one replica" } else { "value differs" };
+        let what = if path.contains(".changestate") {
+            "change state".to_string()
+        } else if state == "Conflict" {
+            "an attribute".to_string()
+        } else {
+            format!("attribute {}", path.trim_start_matches(".ent.V3.attrs.").split('.').next().unwrap_or(""))
+        };
+        format!("{state} entry: {what} {kind}")
     } else {
         "other".into()
     }
@@ -955,6 +1025,7 @@ pub struct Weights {
     pub dynf: u32,
     pub reindex: u32,
     pub manager: u32,
+    pub abandon: u32,
 }
 
 pub fn generate(property: &str, seed: u64, cfg: &Cfg, w: &Weights, n_events: usize, big_time: bool) -> Plan {
@@ -968,7 +1039,7 @@ pub fn generate(property: &str, seed: u64, cfg: &Cfg, w: &Weights, n_events: usi
     let mut created_groups: Vec<Uuid> = vec![];
     let mut deleted: Vec<Uuid> = vec![];
     let mut evs: Vec<J> = vec![];
-    let weights = [w.create, w.rename, w.attr, w.member, w.delete, w.revive, w.purge, w.domain, w.repl, w.advance, w.skew, w.crash, w.bad, w.dynf, w.reindex, w.manager];
+    let weights = [w.create, w.rename, w.attr, w.member, w.delete, w.revive, w.purge, w.domain, w.repl, w.advance, w.skew, w.crash, w.bad, w.dynf, w.reindex, w.manager, w.abandon];
     let anyof = |g: &mut Rng, a: &Vec<Uuid>, b: &Vec<Uuid>| -> Uuid {
         if !a.is_empty() && g.chance(4, 5) {
             *g.pick(a)
@@ -978,6 +1049,7 @@ pub fn generate(property: &str, seed: u64, cfg: &Cfg, w: &Weights, n_events: usi
     };
     let all: Vec<Uuid> = persons.iter().chain(groups.iter()).cloned().collect();
     let mut id = 0u64;
+    let mut fresh = 0u64;
     while evs.len() < n_events {
         let n = g.below(nn as u64) as usize;
         let op = match g.pick_weighted(&weights) {
@@ -985,11 +1057,15 @@ pub fn generate(property: &str, seed: u64, cfg: &Cfg, w: &Weights, n_events: usi
                 // create; sometimes the same uuid / same name on another node (forced collisions)
                 let k = g.below(10);
                 if k < 5 {
-                    let u = *g.pick(&persons);
+                    // "lag" runs never create the same uuid twice: re-creating a uuid that was
+                    // deleted elsewhere is a new create, not the resurrection C09 speaks of.
+                    fresh += 1;
+                    let u = if cfg.focus == "lag" { uuid_for(1, 100 + fresh) } else { *g.pick(&persons) };
                     created.push(u);
                     Op::CreatePerson { n, u, name: g.pick(&names).clone() }
                 } else if k < 9 {
-                    let u = *g.pick(&groups);
+                    fresh += 1;
+                    let u = if cfg.focus == "lag" { uuid_for(2, 100 + fresh) } else { *g.pick(&groups) };
                     let mut ms = vec![];
                     for _ in 0..g.below(3) {
                         ms.push(anyof(&mut g, &created, &all));
@@ -998,7 +1074,8 @@ pub fn generate(property: &str, seed: u64, cfg: &Cfg, w: &Weights, n_events: usi
                     created_groups.push(u);
                     Op::CreateGroup { n, u, name: g.pick(&names).clone(), members: ms }
                 } else {
-                    let u = *g.pick(&dyns);
+                    fresh += 1;
+                    let u = if cfg.focus == "lag" { uuid_for(3, 100 + fresh) } else { *g.pick(&dyns) };
                     created.push(u);
                     created_groups.push(u);
                     Op::CreateDyn { n, u, name: format!("dyn{}", g.below(2)), pat: g.pick(&["n", "na", "nb", "nc", "x"]).to_string() }
@@ -1077,7 +1154,8 @@ pub fn generate(property: &str, seed: u64, cfg: &Cfg, w: &Weights, n_events: usi
             }
             13 => Op::SetDynFilter { n, u: *g.pick(&dyns), pat: g.pick(&["n", "na", "nb", "nc", "x"]).to_string() },
             14 => Op::Reindex { n },
-            _ => Op::SetManager { n, u: anyof(&mut g, &created_groups, &groups), mgr: anyof(&mut g, &created, &all) },
+            15 => Op::SetManager { n, u: anyof(&mut g, &created_groups, &groups), mgr: anyof(&mut g, &created, &all) },
+            _ => Op::Abandon { n, u: *g.pick(&persons), name: g.pick(&names).clone() },
         };
         id += 1;
         let mut v = serde_json::to_value(&op).expect("json");
@@ -1130,7 +1208,7 @@ pub struct ClusterScenario {
 const ALL_STEP: [&str; 9] = ["C03", "C07", "C15", "C16", "C17", "C18", "C19", "C20", "C22"];
 
 fn w_default() -> Weights {
-    Weights { create: 14, rename: 6, attr: 8, member: 10, delete: 6, revive: 3, purge: 1, domain: 0, repl: 22, advance: 8, skew: 0, crash: 0, bad: 0, dynf: 1, reindex: 0, manager: 2 }
+    Weights { create: 14, rename: 6, attr: 8, member: 10, delete: 6, revive: 3, purge: 1, domain: 0, repl: 22, advance: 8, skew: 0, crash: 0, bad: 0, dynf: 1, reindex: 0, manager: 2, abandon: 0 }
 }
 
 impl Scenario for ClusterScenario {
@@ -1177,22 +1255,18 @@ pub fn scenarios() -> Vec<Box<dyn Scenario>> {
     let mut v: Vec<Box<dyn Scenario>> = vec![];
     v.push(Box::new(ClusterScenario {
         id: "C08",
-        enabled: {
-            let mut e = ALL_STEP.to_vec();
-            e.push("C08");
-            e
-        },
+        enabled: vec!["C08"],
         quick_runs: 320,
         thorough_runs: 40_000,
         rule: "Concurrent write histories with forced uuid/name collisions on 2–3 replicas under random three-step replication schedules (stale ranges, loss, duplication), then fault-free full-mesh replication to quiescence; canonical dumps compared pairwise.",
         mk: |k, tier| {
             let nodes = 2 + k.below(2) as usize;
             let faults = k.chance(1, 2);
-            let cfg = Cfg { nodes, file_backed: false, arc: None, focus: "converge".into(), auto_refresh: true, quiesce: true, faults };
-            let mut w = w_default();
-            if k.chance(1, 3) {
-                w.skew = 3;
-            }
+            let cfg = Cfg { nodes, file_backed: false, arc: None, focus: "converge".into(), auto_refresh: true, quiesce: true, faults, tick: true };
+            // Clocks are consistent with causality in these runs (one second per event, no skew):
+            // the statement is about concurrent writes and replication order, not clock faults
+            // (those are C07's).
+            let w = w_default();
             let n = if tier == Tier::Quick { 20 + k.below(40) as usize } else { 20 + k.below(100) as usize };
             (cfg, w, n, false)
         },
@@ -1202,7 +1276,7 @@ pub fn scenarios() -> Vec<Box<dyn Scenario>> {
         let nodes = 1 + k.below(3) as usize;
         let file_backed = k.chance(1, 4);
         let arc = if k.chance(1, 3) { Some(*k.pick(&[4usize, 16, 64])) } else { None };
-        let cfg = Cfg { nodes, file_backed, arc, focus: "dir".into(), auto_refresh: true, quiesce: true, faults: k.chance(1, 2) };
+        let cfg = Cfg { nodes, file_backed, arc, focus: "dir".into(), auto_refresh: true, quiesce: true, faults: k.chance(1, 2), tick: k.chance(1, 2) };
         let mut w = w_default();
         w.purge = 3;
         w.domain = 1;
@@ -1227,12 +1301,78 @@ pub fn scenarios() -> Vec<Box<dyn Scenario>> {
     let dir = |id: &'static str, rule: &'static str, quick: u64| -> Box<dyn Scenario> {
         Box::new(ClusterScenario { id, enabled: vec![id], quick_runs: quick, thorough_runs: 30_000, rule, mk: mk_dir })
     };
+    // C07: adversarial clocks (repeats, regressions, jumps), abandoned transactions, restarts.
+    v.push(Box::new(ClusterScenario {
+        id: "C07",
+        enabled: vec!["C07"],
+        quick_runs: 320,
+        thorough_runs: 60_000,
+        rule: "Write transactions whose clock is drawn adversarially per node (repeats, regressions of seconds to days, jumps), interleaved with abandoned transactions, replication applies, refreshes (new server uuid) and crash/restart on file-backed nodes; per server uuid the change time of every committed transaction must be strictly greater than that of every earlier committed one, across incarnations.",
+        mk: |k, tier| {
+            let nodes = 1 + k.below(2) as usize;
+            let file_backed = k.chance(2, 3);
+            let cfg = Cfg { nodes, file_backed, arc: None, focus: "cid".into(), auto_refresh: true, quiesce: false, faults: true, tick: false };
+            let mut w = w_default();
+            w.skew = 14;
+            w.advance = 6;
+            w.abandon = 6;
+            w.crash = if file_backed { 8 } else { 0 };
+            w.repl = if nodes > 1 { 10 } else { 0 };
+            let n = if tier == Tier::Quick { 30 + k.below(50) as usize } else { 30 + k.below(200) as usize };
+            (cfg, w, n, k.chance(1, 4))
+        },
+    }));
+    // C09 / C10: deletes, purges and reaping around the retention and changelog windows, lag
+    // beyond the window, refresh; the range monitor runs on every supplier step.
+    fn mk_lag(k: &mut Rng, tier: Tier) -> (Cfg, Weights, usize, bool) {
+        let nodes = 2 + k.below(2) as usize;
+        let cfg = Cfg { nodes, file_backed: false, arc: None, focus: "lag".into(), auto_refresh: k.chance(3, 4), quiesce: true, faults: k.chance(1, 2), tick: true };
+        let mut w = w_default();
+        w.delete = 12;
+        w.revive = 4;
+        w.purge = 10;
+        w.advance = 14;
+        w.repl = 24;
+        let n = if tier == Tier::Quick { 30 + k.below(50) as usize } else { 30 + k.below(200) as usize };
+        (cfg, w, n, true)
+    }
+    v.push(Box::new(ClusterScenario {
+        id: "C09",
+        enabled: vec!["C09"],
+        quick_runs: 320,
+        thorough_runs: 40_000,
+        rule: "Histories biased to delete/revive/purge with the simulated clock jumping around the 7-day recycle-bin and changelog windows, replication delayed up to several windows, refresh on demand; a uuid that became a tombstone anywhere must never be live again on a node that applied the tombstone, nor anywhere at quiescence.",
+        mk: mk_lag,
+    }));
+    v.push(Box::new(ClusterScenario {
+        id: "C10",
+        enabled: vec!["C10"],
+        quick_runs: 320,
+        thorough_runs: 40_000,
+        rule: "Monitor on every supplier step of lag-heavy histories (trimming, lag beyond the window, refresh): the reply (supply ranges / no changes / refresh / refuse) is compared with an independent decision function written from the property statement, evaluated on the consumer's ranges and the supplier's trimmed ranges.",
+        mk: mk_lag,
+    }));
     v.push(dir("C03", "Random directory histories (renames, recycle/revive, purge, reaping, replication applies incl. uuid-changing conflicts, reindex, restart, small ARC caches); after every commit on the touched node: server verify(), index tables == keys recomputed from stored entries (two-sided), lookup tables and name resolution == scan, indexed search == scan.", 240));
     v.push(dir("C15", "Random directory histories with adversarial (ill-typed, missing-must, disallowed-attribute, unknown-class, multi-value) creates and modifies and replicated merges; after every commit each live entry is checked against the schema dumped from the same transaction; refused operations must leave the database digest unchanged.", 240));
     v.push(dir("C16", "Random histories over reference-bearing entries (members, entry managers), deletes, revives, purges, replicated conflicts; after every commit every reference-typed attribute of every live entry must point at a live entry on that node.", 240));
     v.push(dir("C17", "Random group graphs (cycles, self-membership, dyngroups) edited by member add/remove, delete/revive and replication; after every commit memberof/directmemberof are recomputed by breadth-first closure in the harness and compared exactly.", 240));
     v.push(dir("C18", "Dynamic groups with random filters, candidate create/rename/delete/revive, filter edits, replication, restart; after every commit dynmember == harness evaluation of the group's filter over the live entries of that node.", 240));
     v.push(dir("C19", "Creates and renames from a tiny name/uuid pool on 1–3 replicas with random replication schedules; after every commit no two live entries share a uuid or a unique attribute value.", 240));
-    v.push(dir("C22", "Creates/renames of persons and groups interleaved with domain renames, replication and restart; after every commit every live account/group has exactly one spn == name@domain.", 240));
+    fn mk_single(k: &mut Rng, tier: Tier) -> (Cfg, Weights, usize, bool) {
+        let file_backed = k.chance(1, 2);
+        let arc = if k.chance(1, 3) { Some(*k.pick(&[4usize, 16, 64])) } else { None };
+        let cfg = Cfg { nodes: 1, file_backed, arc, focus: "single".into(), auto_refresh: true, quiesce: false, faults: false, tick: k.chance(1, 2) };
+        let mut w = w_default();
+        w.repl = 0;
+        w.domain = 5;
+        w.rename = 12;
+        w.revive = 4;
+        w.purge = 2;
+        w.reindex = 1;
+        w.crash = if file_backed { 4 } else { 0 };
+        let n = if tier == Tier::Quick { 20 + k.below(50) as usize } else { 20 + k.below(180) as usize };
+        (cfg, w, n, k.chance(1, 4))
+    }
+    v.push(Box::new(ClusterScenario { id: "C22", enabled: vec!["C22"], quick_runs: 320, thorough_runs: 40_000, rule: "Creates/renames of persons and groups interleaved with domain renames, delete/revive and restart on one server; after every commit every live account/group that has a name has exactly one spn == name@domain.", mk: mk_single }));
     v
 }
